@@ -352,6 +352,7 @@ func joinLex(ls []string) string {
 }
 
 func propC10(c *Ctx) {
+	propScaleTemplates(c)
 	g := newExGen(c)
 	n := 2500
 	if c.Thorough {
